@@ -49,7 +49,7 @@ ASSUMPTIONS = ['supported size family = pv/families.py',
 REQUIRED_COUNTERS = ['optimality_syndromes_checked', 'coset_tables_built',
                      'low_weight_errors_decoded', 'uf_errors_decoded',
                      'sweepmatch_single_qubit_errors',
-                     'deformed_weight_configs']
+                     'deformed_weight_configs', 'uf_weight3_compact_errors']
 SHARD_TIMEOUT = {'quick': 900, 'thorough': 5400}
 EXHAUSTIVE = True
 EXHAUSTIVE_SCOPE = ('per (decoder, lattice) block listed in '
@@ -125,6 +125,13 @@ def plan(tier, seed):
                               'full': True, 'chunk': c, 'nchunks': nch,
                               'stride': stride, 'seed': seed,
                               'cost': cnt / stride * 20 / nch + 300})
+    # ---- B': union-find at t = 3: compact weight-3 errors on 7x7 -----------
+    nch = 4 if tier == 'quick' else 16
+    for c in range(nch):
+        tasks.append({'kind': 'compact3', 'decoder': 'UnionFindDecoder',
+                      'cls': 'Toric2DCode', 'size': [7, 7], 'chunk': c,
+                      'nchunks': nch, 'stride': 6 if tier == 'quick' else 1,
+                      'seed': seed, 'cost': 9000})
     # ---- C: sweep-match single-qubit ---------------------------------------
     sm = [('SweepMatchDecoder', 'Toric3DCode', (3, 3, 3)),
           ('SweepMatchDecoder', 'Toric3DCode', (3, 4, 3)),
@@ -395,9 +402,80 @@ def run_single(task, out):
             f"single-qubit:{task['decoder']}:{cls}{size}")
 
 
+def run_compact3(task, out):
+    """Weight-3 errors (t = 3 on the 7x7 torus) whose three qubits pairwise
+    share a stabilizer -- the patterns that put several defects under one
+    node of a union-find peeling tree -- in the X-only, Z-only and Y-only
+    letterings."""
+    cls, size = task['cls'], tuple(task['size'])
+    code = fam.build(cls, size)
+    n = code.n
+    H = gf2.pack_rows(code.stabilizer_matrix)
+    m = len(H)
+    ech = gf2.Echelon(H)
+    dec = make_decoder(task['decoder'], code)
+    mask = (1 << n) - 1
+    nb = [set() for _ in range(n)]        # qubits sharing a stabilizer
+    for h in H:
+        sup = [i for i in range(n) if ((h | (h >> n)) >> i) & 1]
+        for a in sup:
+            nb[a].update(sup)
+    triples = set()
+    for a in range(n):
+        for b in nb[a]:
+            if b <= a:
+                continue
+            for c in nb[a] | nb[b]:
+                if c > b and (c in nb[a] or c in nb[b]):
+                    triples.add((a, b, c))
+    triples = sorted(triples)
+    desc = {'decoder': task['decoder'], 'cls': cls, 'size': list(size),
+            'k': 'compact-weight-3'}
+    mech = f"{task['decoder']}/{cls}/weight-3-compact"
+    cnt = 0
+    idx = 0
+    off = task['seed'] % task['stride']
+    for tr in triples:
+        for let in (1, 2, 3):
+            idx += 1
+            if idx % task['stride'] != off or \
+                    (idx // task['stride']) % task['nchunks'] != \
+                    task['chunk']:
+                continue
+            e = 0
+            for q in tr:
+                if let in (1, 2):
+                    e |= 1 << q
+                if let in (3, 2):
+                    e |= 1 << (n + q)
+            s = gf2.unpack(gf2.syndrome_int(H, e, n), m)
+            try:
+                corr = np.asarray(dec.decode(s))
+            except Exception as ex:
+                where = panqec_frame(ex)
+                if where is None:
+                    raise
+                out.violation(f'{mech}/raises-{type(ex).__name__}',
+                              f'{type(ex).__name__}: {ex} at {where} on '
+                              f'{code.from_bsf(gf2.unpack(e, 2 * n))}',
+                              dict(desc, error=gf2.unpack(e, 2 * n)))
+                continue
+            cnt += 1
+            if not ech.contains(e ^ gf2.pack(corr)):
+                op = code.from_bsf(gf2.unpack(e, 2 * n))
+                out.violation(f'{mech}/not-corrected',
+                              f'weight-3 error {op} (t=3) is not corrected',
+                              dict(desc, error=gf2.unpack(e, 2 * n)))
+    out.count('uf_errors_decoded', cnt)
+    out.count('uf_weight3_compact_errors', cnt)
+    out.case(dict(desc, chunk=task['chunk']), True, n=cnt, distinct=cnt,
+             sample=dict(desc, errors=cnt, triples=len(triples))
+             if task['chunk'] == 0 else None)
+
+
 def run_task(task, out):
-    {'opt': run_opt, 'corr': run_corr, 'single': run_single}[task['kind']](
-        task, out)
+    {'opt': run_opt, 'corr': run_corr, 'single': run_single,
+     'compact3': run_compact3}[task['kind']](task, out)
 
 
 def classify(v):
